@@ -1,3 +1,263 @@
-"""C10 forced schedules (spec -> impl). Placeholder until the UciGen machinery is in."""
+"""C10 forced schedules (spec -> impl): TLC enumerates every behaviour of Uci.tla for a few GUI
+scripts (UciGen.tla); each behaviour is forced on the real instrumented binary by holding the
+search thread at the labelled cfg(rce_verif) schedule points and sending each line exactly when
+the behaviour says the input thread reads it.  What the GUI can observe of each forced run is
+then validated by UciTrace.tla like any other session (without the timing clauses, since the
+controller itself holds the threads)."""
+import concurrent.futures as cf
+import json
+import os
+import random
+import re
+import shutil
+import tempfile
+import time
+
+from engine import Engine, write_batch
+from vlib import *
+import uci_checks
+
+GEN_CFG = '''SPECIFICATION GSpec
+CONSTANTS
+  MaxCmds = %d
+  MaxSearch = %d
+  MaxIter = 1
+  Vocabulary = {"go_inf", "go_lim", "stop", "position_ok", "position_bad", "isready", "junk", "quit"}
+  StartStoresTrue = FALSE
+  GoRejectsUnfinished = FALSE
+  NoFallbackMove = FALSE
+  BestBeforeClear = FALSE
+  EofLoops = FALSE
+  ParserPanics = FALSE
+  Script <- %s
+INVARIANT Emit
+CHECK_DEADLOCK FALSE
+'''
+SCRIPTS = {
+    'Script1': ['go_inf', 'stop', 'position_ok', 'isready', 'go_lim'],
+    'Script2': ['go_lim', 'go_inf', 'stop', 'go_lim'],
+    'Script3': ['go_inf', 'isready', 'stop', 'go_inf', 'stop'],
+    'Script4': ['go_lim', 'stop', 'go_lim', 'isready'],
+}
+LINES = {'go_inf': 'go infinite', 'go_lim': 'go depth 1', 'stop': 'stop', 'position_ok': 'position startpos moves e2e4 e7e5',
+         'isready': 'isready'}
+HOLDS = ['S.entry', 'S.started', 'S.iter1', 'S.pre_best', 'S.cleared', 'S.post_best', 'S.exit']
+
+
+def generate(script):
+    cmds = SCRIPTS[script]
+    ngo = sum(1 for c in cmds if c.startswith('go'))
+    rc, out = run_tlc('MCUciGen.tla', GEN_CFG % (len(cmds), ngo, script), 'ucigen-%s-%d' % (script, os.getpid()),
+                      workers=4, timeout=1200)
+    if 'Model checking completed. No error has been found.' not in out:
+        log(out[-2000:])
+        raise ToolError('UciGen failed for %s' % script)
+    trails = []
+    for line in out.split('\n'):
+        if line.startswith('<<"SCHED", "'):
+            js = line[len('<<"SCHED", "'):-3].replace('\\"', '"')
+            trails.append(json.loads(js))
+    gen, dist = mc_stats(out)
+    return trails, dist, gen
+
+
+class Forcer:
+    def __init__(self, trail):
+        self.trail = trail
+        self.dir = tempfile.mkdtemp(prefix='sched-', dir=WORK)
+        for h in HOLDS:
+            open(os.path.join(self.dir, 'hold.' + h), 'w').close()
+        open(os.path.join(self.dir, 'events'), 'w').close()
+        self.e = Engine(env={'RCE_VERIF_SCHED': self.dir})
+        self.seen = 0
+        self.counts = {}
+        self.forced = True
+        self.why = ''
+
+    def poll(self):
+        try:
+            lines = open(os.path.join(self.dir, 'events')).read().split('\n')
+        except OSError:
+            return
+        for l in lines[self.seen:]:
+            p = l.split()
+            if len(p) == 3:
+                self.counts[p[2]] = self.counts.get(p[2], 0) + 1
+        self.seen = max(0, len(lines) - 1)
+
+    def wait(self, label, n, timeout=2.5):
+        end = time.monotonic() + timeout
+        while time.monotonic() < end:
+            self.poll()
+            if self.counts.get(label, 0) >= n:
+                return True
+            self.e._pump(0.001)
+        self.forced = False
+        self.why = 'timeout waiting for %s #%d' % (label, n)
+        return False
+
+    def release(self, label):
+        """let the thread held at `label` go on, and arm the hold again for the next search"""
+        n = self.counts.get('released.' + label, 0)
+        try:
+            os.remove(os.path.join(self.dir, 'hold.' + label))
+        except OSError:
+            pass
+        ok = self.wait('released.' + label, n + 1)
+        open(os.path.join(self.dir, 'hold.' + label), 'w').close()
+        return ok
+
+    def reach(self, label):
+        return self.wait(label, self.counts.get(label, 0) + 1) if False else None
+
+    def run(self):
+        e = self.e
+        tr = self.trail
+        reached = {h: 0 for h in HOLDS}        # how many times we have already accounted for a thread arriving at h
+        mdone = [0]                            # M.done events expected so far
+
+        def main_done(timeout=2.5):
+            mdone[0] += 1
+            return self.wait('M.done', mdone[0], timeout)
+
+        def arrive(label):
+            reached[label] += 1
+            return self.wait(label, reached[label])
+        try:
+            i = 0
+            while i < len(tr) and self.forced:
+                who, what = tr[i]
+                nxt = tr[i + 1] if i + 1 < len(tr) else None
+                if who == 'M' and what != 'join':
+                    e.send(LINES[what])
+                    if what.startswith('go'):
+                        # does the input thread start the search at once or wait for the previous one?
+                        joins = any(t == ['M', 'join'] for t in tr[i + 1:]) and \
+                            [t for t in tr[i + 1:] if t[0] == 'M'][0] == ['M', 'join']
+                        if not joins:
+                            main_done() and arrive('S.entry')
+                    elif what == 'isready':
+                        if e.wait_for('readyok', 2500) is None:
+                            e.log({'ev': 'deadline', 'what': 'readyok', 't': e.now()})
+                            self.forced = False
+                            self.why = 'no readyok'
+                        main_done()
+                    else:
+                        main_done()
+                elif who == 'M':
+                    # the input thread was blocked in join; the previous search has exited by now
+                    main_done(4) and arrive('S.entry')
+                elif what == 'entry':
+                    self.release('S.entry') and arrive('S.started')
+                elif what == 'work':
+                    self.release('S.started') and arrive('S.iter1')
+                elif what == 'check-break':
+                    self.release('S.iter1') and arrive('S.pre_best')
+                elif what == 'check-go':
+                    self.release('S.iter1')
+                elif what == 'spin':
+                    arrive('S.pre_best')
+                elif what == 'clear':
+                    self.release('S.pre_best') and arrive('S.cleared')
+                elif what == 'best':
+                    nb = sum(1 for x in e.events if x.get('ev') == 'recv' and x.get('kind') == 'bestmove')
+                    if self.release('S.cleared') and arrive('S.post_best'):
+                        # the line was printed before the hook: make sure the GUI has read it before it goes on
+                        end = time.monotonic() + 1.5
+                        while time.monotonic() < end and sum(1 for x in e.events if x.get('ev') == 'recv' and x.get('kind') == 'bestmove') <= nb:
+                            e._pump(0.002)
+                elif what == 'exit':
+                    if self.release('S.post_best') and arrive('S.exit'):
+                        self.release('S.exit')
+                        time.sleep(0.003)
+                i += 1
+        finally:
+            # free run from here on
+            for h in HOLDS:
+                try:
+                    os.remove(os.path.join(self.dir, 'hold.' + h))
+                except OSError:
+                    pass
+        # wind down with the GUI discipline kept: stop anything still searching, wait for answers
+        if not self.forced:
+            e.send('stop')
+        ngo = sum(1 for x in e.events if x.get('ev') == 'send' and x.get('cls', '').startswith('go'))
+        deadline = time.monotonic() + 4
+        while time.monotonic() < deadline:
+            nb = sum(1 for x in e.events if x.get('ev') == 'recv' and x.get('kind') == 'bestmove')
+            if nb >= ngo:
+                break
+            e._pump(0.02)
+        else:
+            e.log({'ev': 'deadline', 'what': 'bestmove', 't': e.now()})
+        e.send('isready')
+        if e.wait_for('readyok', 2500) is None:
+            e.log({'ev': 'deadline', 'what': 'readyok', 't': e.now()})
+        e.send('quit')
+        e.wait_exit(2500)
+        e.kill()
+        shutil.rmtree(self.dir, ignore_errors=True)
+        return e.events, self.forced, self.why
+
+
 def run(tier, seed, verdict, cov):
-    cov['forced_schedules'] = 0
+    rng = random.Random(seed)
+    all_trails = []
+    states = trans = 0
+    for s in SCRIPTS:
+        trails, dist, gen = generate(s)
+        states += dist
+        trans += gen
+        all_trails += [(s, t) for t in trails]
+    total = len(all_trails)
+    if tier == 'quick':
+        # the shortest-prefix-distinct schedules first: sample uniformly, deterministic in the seed
+        rng.shuffle(all_trails)
+        chosen = all_trails[:72]
+    else:
+        chosen = all_trails
+
+    def one(st):
+        s, t = st
+        return Forcer(t).run()
+    t0 = time.time()
+    with cf.ThreadPoolExecutor(max_workers=4) as ex:
+        results = list(ex.map(one, chosen))
+    log('[C10] %d forced schedules executed in %.1fs' % (len(chosen), time.time() - t0))
+    sessions = [r[0] for r in results]
+    forced = sum(1 for r in results if r[1])
+    d = fresh_dir('sched-%d' % os.getpid())
+    files = []
+    per = 12
+    for i in range(0, len(sessions), per):
+        p = os.path.join(d, 'forced-%04d.ndjson' % (i // per))
+        write_batch(p, sessions[i:i + per])
+        files.append((p, i))
+    with cf.ThreadPoolExecutor(max_workers=max(1, NCPU - 2)) as ex:
+        vals = list(ex.map(lambda f: uci_checks.validate_uci(f[0], 'C10F'), files))
+    for (p, base), r in zip(files, vals):
+        if r['status'] == 'error':
+            log(r.get('detail', '')[-3000:])
+            raise ToolError('UciTrace failed on forced-schedule batch')
+        cov['states'] = cov.get('states', 0) + r['states']
+        cov['transitions'] = cov.get('transitions', 0) + r['generated']
+        if r['status'] == 'accept':
+            cov['traces_validated_against_impl'] = cov.get('traces_validated_against_impl', 0) + 1
+        else:
+            evs = uci_checks.session_of(p, r['line'])
+            n = next((e['n'] for e in evs if e.get('ev') == 'session'), 1)
+            script, trail = chosen[base + n - 1]
+            desc = uci_checks.describe(evs)
+            sig = {'kind': 'forced-schedule-rejected', 'script': SCRIPTS[script], 'schedule': [' '.join(x) for x in trail],
+                   'unmatched': desc[-1] if desc else ''}
+            verdict.report(sig, {'how': 'behaviour of Uci.tla forced on the real binary; the observed session is not a behaviour of the model',
+                                 'session': desc, 'forcing': results[base + n - 1][2] or 'held as scheduled'},
+                           trace_src=p, cut_line=r['line'])
+    cov['states'] = cov.get('states', 0) + states
+    cov['transitions'] = cov.get('transitions', 0) + trans
+    cov['forced_schedules'] = {'behaviours_generated_by_tlc': total, 'executed': len(chosen), 'held_exactly_as_scheduled': forced,
+                               'scripts': SCRIPTS}
+    if forced < len(chosen) * 0.8 and not verdict.violations:
+        raise ToolError('only %d of %d schedules could be forced as generated (hook mapping out of date?): %s'
+                        % (forced, len(chosen), [r[2] for r in results if not r[1]][:3]))
+    shutil.rmtree(d, ignore_errors=True)
